@@ -68,6 +68,7 @@ pub struct Gen<'a> {
     nodes_left: i32,
     keys_used: Vec<usize>,
     hashes_used: Vec<usize>,
+    locks_used: Vec<String>,
 }
 
 fn wrap(w: &str, inner: &str) -> String {
@@ -87,7 +88,7 @@ fn wrap(w: &str, inner: &str) -> String {
 
 impl<'a> Gen<'a> {
     pub fn new(rng: &'a mut Rng, uni: &'a mut KeyUniverse, locks: LockCfg) -> Self {
-        Gen { rng, uni, locks, max_keys: 8, max_hashes: 3, ctx: MsCtx::Segwit, nodes_left: 20, keys_used: vec![], hashes_used: vec![] }
+        Gen { rng, uni, locks, max_keys: 8, max_hashes: 3, ctx: MsCtx::Segwit, nodes_left: 20, keys_used: vec![], hashes_used: vec![], locks_used: vec![] }
     }
 
     fn key_form(&mut self) -> KeyForm {
@@ -180,6 +181,15 @@ impl<'a> Gen<'a> {
         }
     }
     fn lock(&mut self) -> String {
+        // the same lock value often occurs more than once in a script (two arms sharing a delay)
+        if !self.locks_used.is_empty() && self.rng.chance(1, 3) {
+            return self.rng.pick(&self.locks_used).clone();
+        }
+        let l = self.fresh_lock();
+        self.locks_used.push(l.clone());
+        l
+    }
+    fn fresh_lock(&mut self) -> String {
         match self.rng.below(10) {
             0..=3 => self.older(false),
             4 => self.older(true),
@@ -475,6 +485,7 @@ impl<'a> Gen<'a> {
     pub fn descriptor(&mut self, kind: OutKind) -> DescSpec {
         self.keys_used.clear();
         self.hashes_used.clear();
+        self.locks_used.clear();
         let source = self.rng.below(3);
         let (text, src): (String, &'static str) = match kind {
             OutKind::Bare => {
@@ -619,4 +630,14 @@ pub const SHAPES: &[&str] = &[
     "and_b(@H,a:and_b(@H,a:pk(@K)))",
     "and_v(v:@H,and_v(v:@H,pk(@K)))",
     "and_n(pk(@K),and_v(v:pk(@K),@A))",
+    "and_v(v:pk(@K),and_v(or_c(pk(@K),v:older(144)),or_d(pk(@K),older(144))))",
+    "and_v(v:pk(@K),and_v(or_c(pk(@K),v:after(1500)),or_d(pk(@K),after(1500))))",
+    "thresh(2,pk(@K),s:pk(@K),sndv:@O)",
+    "thresh(2,pk(@K),s:pk(@K),aj:and_v(v:pk(@K),@H))",
+    "or_d(and_b(pk(@K),a:pkh(@K)),pk(@K))",
+    "and_v(v:pk(@K),or_d(pk(@K),@O))",
+    "and_v(v:pk(@K),or_d(pk(@K),@H))",
+    "or_d(or_i(pk(@K),and_v(v:@O,pk(@K))),pk(@K))",
+    "and_v(v:pk(@K),or_i(1,pk(@K)))",
+    "thresh(2,pk(@K),s:pk(@K),a:or_i(1,pk(@K)))",
 ];
